@@ -24,7 +24,7 @@ from pbt.core import Collector, HarnessError, mksig
 
 ID = "C03"
 RULE = ("semantic statement descriptions -> (builder program through SQLLiteQuery, independent fully bracketed / qualified reference text) x 3 generated databases "
-        "per case (0-6 rows per table with NULLs, duplicates, zeros, negatives). Non-trivial = >= 2 clause kinds beyond SELECT/FROM or nesting >= 2, and the reference "
+        "per case (0-6 rows per table with NULLs, duplicates, zeros, negatives); aggregates with independent DISTINCT / FILTER, aggregate-only selects with HAVING, framed window functions (ROWS / RANGE, offsets 0-3). Non-trivial = >= 2 clause kinds beyond SELECT/FROM or nesting >= 2, and the reference "
         "returns rows on some database (queries) or changes a row (DML); distinct = distinct (statement, databases).")
 ASSUMPTIONS = [
     "SQLite 3.40 is the ground truth; the reference writer shares no code with the library's get_sql",
